@@ -469,7 +469,9 @@ def canon_guard_semantics(ctx, scope):
         lv_mine = [l for l, _ in lcalls if te is not None and w.dominates(te[0], l)]
         after_leave = [r for r in mine if any(r in w.reachable_from(w.term(l)['target'], avoid=eb) for l in lv_mine)]
         rets = [x for x in ok_return_blocks(w)]
-        closed = bool(lv_mine) and te is not None and bool(mine) and not after_leave and \
+        own = origin(w, t['args'][1]).params() == {3} and not origin(w, t['args'][1]).fields and \
+            all(origin(w, lt['args'][1]).params() == {3} and not origin(w, lt['args'][1]).fields for l, lt in lcalls if l in lv_mine)
+        closed = own and bool(lv_mine) and te is not None and bool(mine) and not after_leave and \
             all(must_pass(w, w.term(r)['target'] if try_edges(w, r) is None else try_edges(w, r)[0], rets, lv_mine) for r in mine)
         n += 1
         ctx.ob('RECGUARD-T', 'canon/bracket#%d' % i, closed, short_loc(t.get('span')),
